@@ -515,6 +515,66 @@ fn gen_animator(rng: &mut Rng) -> Animator {
                 }
             }
         }
+        // Sibling components (a third of the merged arms; decided and drawn from a stream of its
+        // own, seeded by what the first component looks like, so that the rest of the corpus is
+        // what it was before siblings existed): the second component is a copy of the first one's
+        // timing - same duration, delay, easing, repeat, direction - that animates other
+        // properties, and then differs from it in at most ONE timing argument. Components that
+        // look alike are still separate timelines.
+        if merged {
+            let text = render_tl_macro(&tls[0]);
+            let mut hsh = text.bytes().fold(0x7369_626cu64, |h, b| (h ^ b as u64).wrapping_mul(0x0000_0100_0000_01B3));
+            hsh ^= tls[0].kfs.len() as u64;
+            let has_default_body = tls[0].kfs.iter().any(|k| matches!(k.body, Body::Default));
+            let back = tls[0].easing.map(|e| e >= 26).unwrap_or(false);
+            let used: Vec<usize> = tls[0]
+                .kfs
+                .iter()
+                .flat_map(|k| match &k.body {
+                    Body::Fields(f) => f.iter().map(|(i, _)| *i).collect::<Vec<_>>(),
+                    Body::Default => vec![],
+                })
+                .collect();
+            let free_fields: Vec<usize> = (0..4).filter(|f| !used.contains(f) && !(*f == 3 && back)).collect();
+            if hsh % 3 == 0 && !has_default_body && !free_fields.is_empty() {
+                let mut r = Rng::new(hsh);
+                let mut sib = tls[0].clone();
+                sib.earlier_easing = None;
+                let f = free_fields[r.usize_below(free_fields.len())];
+                sib.kfs = vec![
+                    Kf { pos: Pos::From, body: Body::Fields(vec![(f, value_lit(&mut r, f))]) },
+                    Kf { pos: Pos::To, body: Body::Fields(vec![(f, value_lit(&mut r, f))]) },
+                ];
+                match r.below(5) {
+                    0 => sib.reverse = !sib.reverse,
+                    1 => {
+                        sib.repeat = match sib.repeat {
+                            None => Some(Some(2)),
+                            Some(_) => None,
+                        }
+                    }
+                    2 => {
+                        sib.delay = match sib.delay {
+                            None => Some(TimeLit { text: "250ms".into(), seconds: 0.25 }),
+                            Some(_) => None,
+                        }
+                    }
+                    3 if !back && f != 3 => {
+                        sib.easing = Some(match sib.easing {
+                            Some(e) => (e + 1) % 26,
+                            None => 5,
+                        })
+                    }
+                    _ => {}
+                }
+                sib.arg_order = (0..5 + sib.kfs.len()).collect();
+                if r.chance(0.5) {
+                    r.shuffle(&mut sib.arg_order);
+                }
+                tls[1] = sib;
+                features.push("sibling-components");
+            }
+        }
         if merged {
             features.push("merged-arm");
         } else if bracketed {
